@@ -24,6 +24,9 @@ func storesTo(fn *ssa.Function, fieldID string) []*ssa.Store {
 }
 
 func checkC03(c *Ctx) {
+	// the signatures read back from an image are distinct objects
+	c.ruleLoopAlias("M6.distinct", func(f *ssa.Function) bool { return strings.HasPrefix(name(f), "authenticode.") || strings.HasPrefix(name(f), "(*authenticode.") })
+	c.R.Floor("M6.distinct", 1)
 	fn := c.Fn("M", "authenticode.(*PECOFFBinary).AppendSignature")
 	if fn == nil {
 		return
